@@ -914,9 +914,13 @@ def explore_config(job):
     case, bound, budget_s = job
     cls = SCENARIOS[case["comp"]]
     res = []
-    deadline = time.time() + budget_s
+    # the budget is CPU time of this worker process (so that the set of schedules covered does not shrink when other
+    # checks run at the same time); wall-clock only as a cap at four times the budget
+    deadline = time.time() + 4 * budget_s
+    cpu_deadline = time.process_time() + budget_s
     for schedule, out in sched.explore(lambda: cls(case), cls.files, cls.funcs, max_preempt=bound,
-                                       unit_names=("env",), max_decisions=3000, deadline=deadline):
+                                       unit_names=("env",), max_decisions=3000, deadline=deadline,
+                                       cpu_deadline=cpu_deadline):
         res.append(([list(p) for p in schedule], out.verdict))
     return res
 
@@ -1064,7 +1068,7 @@ class C19(Check):
     def gen(self, tier, rng):
         self.tier = tier
         cfgs = self.configs(tier)
-        budget = 30 if tier == "quick" else 300
+        budget = 24 if tier == "quick" else 300
         jobs = [(c, b, budget) for c, b in cfgs]
         order = sorted(range(len(jobs)), key=lambda i: -jobs[i][1])
         with multiprocessing.get_context("fork").Pool(min(14, common.NPROC)) as pool:
